@@ -23,7 +23,7 @@ from nunavut._postprocessors import (
     SetFileMode,
     TrimTrailingWhitespace,
 )
-from nunavut._utilities import DefaultValue, YesNoDefault
+from nunavut._utilities import TEMPLATE_SUFFIX, DefaultValue, YesNoDefault
 from nunavut.lang import Language, LanguageContext, LanguageContextBuilder
 
 
@@ -210,10 +210,13 @@ class ArgparseRunner:
             )
 
         if self._should_generate_support():
-            self._stdout_lister(
-                self._support_generator.get_templates(omit_serialization_support=self._args.omit_serialization_support),
-                lambda p: str(p.resolve()),
+            support_templates = list(
+                self._support_generator.get_templates(omit_serialization_support=self._args.omit_serialization_support)
             )
+            if len(support_templates) > 0 and self._args.support_templates is not None:
+                # templates in a user's support templates folder shadow (or are included by) the built-in ones.
+                support_templates += sorted(pathlib.Path(self._args.support_templates).glob(f"**/*{TEMPLATE_SUFFIX}"))
+            self._stdout_lister(support_templates, lambda p: str(p.resolve()))
 
         if self._args.generate_support != "only":
             if self._generator.generate_namespace_types:
